@@ -81,6 +81,7 @@ EpochManager::GetProtectedEpochs()  //
 {
   auto &&guard = CreateEpochGuard();
   const auto e = guard.GetProtectedEpoch();
+  CPP_UTILITY_VERIF_POINT("epoch.lookup");
   const auto &protected_epochs = ProtectedNode::GetProtectedEpochs(e, protected_lists_);
 
   return {std::move(guard), protected_epochs};
